@@ -209,7 +209,7 @@ def main():
     scale = float(os.environ.get("VERIF_SCALE", "1"))
 
     tmp = os.path.join(VERIF, "build", "tmp", "%s_%s_%d_%d" % (prop, tier, seed, os.getpid()))
-    replay_dir = os.path.join(VERIF, "replays", prop)
+    replay_dir = os.path.join(VERIF, "replays", prop if simbuild.repo_root() == "/repo" else "scratch-" + prop)
     total = {"runs": 0, "nontrivial": 0, "sim_ms": 0, "counters": {}, "samples": [], "per_config": {}}
     violations = []
     known_hits = {}
@@ -324,8 +324,11 @@ def main():
         "wall_s": round(wall, 2),
         "violations": len(violations),
     }
-    os.makedirs(os.path.join(VERIF, "evidence"), exist_ok=True)
-    with open(os.path.join(VERIF, "evidence", prop + ".json"), "w") as f:
+    evdir = os.path.join(VERIF, "evidence")
+    if simbuild.repo_root() != "/repo":
+        evdir = os.path.join(VERIF, "build", "tmp", "evidence-scratch")   # sensitivity runs never touch the committed evidence
+    os.makedirs(evdir, exist_ok=True)
+    with open(os.path.join(evdir, prop + ".json"), "w") as f:
         json.dump(evidence, f, indent=1)
         f.write("\n")
 
